@@ -62,13 +62,13 @@ static void
 orc_x86_compiler_max_loop_shift (OrcX86Target *t, OrcCompiler *c)
 {
   int i;
-  int n = 2;
+  int n = 1;
 
-  for (i = 1; i; i++) {
-    if ((t->register_size / c->max_var_size) == n)
-      break;
+  /* largest power of two of elements that fits a register; 0 when a
+   * variable is as wide as the register (8-byte variables on MMX) */
+  for (i = 0; n * 2 <= t->register_size / c->max_var_size; i++) {
     n *= 2;
-  } 
+  }
   c->loop_shift = i;
 }
 
